@@ -20,5 +20,8 @@ def put(name, body):
 put("FIXED", fx)
 put("KNOWN", kn)
 put("SEEDED", seed)
+import os
+if os.path.exists("/verif/mutation/results.ndjson") and "<!-- BEGIN MUTATION -->" in s:
+    put("MUTATION", subprocess.run(["python3", "/verif/tools/mutation_summary.py"], capture_output=True, text=True).stdout.rstrip("\n"))
 open(D, "w").write(s)
 print("fixed", len(fixed), "known", len(known))
